@@ -340,7 +340,9 @@ def finalize(agg):
             reasons.append("%s evaluated only %d times (< %d)" % (k[9:], st.get(k, 0), v))
     if st.get("conv_direct_timeouts", 0) > 0.05 * max(1, st.get("pgd_direct_calls", 0)):
         reasons.append("%d direct convex cases hit the alarm" % st.get("conv_direct_timeouts", 0))
-    cov = dict(clause_evaluations={k[9:]: int(v) for k, v in st.items() if k.startswith("contract|")},
+    cov = dict(evaluations=int(st.get("contract|geom.ball", 0) + st.get("contract|ctrsbox_pgd.ball", 0) + st.get("contract|ctrsbox_sfista.ball", 0)
+                               + st.get("contract|ctrsbox_geometry.ball", 0) + st.get("contract|trust_region_step.nonnegative-predicted-reduction", 0)),
+               clause_evaluations={k[9:]: int(v) for k, v in st.items() if k.startswith("contract|")},
                direct_calls=dict(trsbox_geometry=int(st.get("geom_direct_calls", 0)), ctrsbox_pgd=int(st.get("pgd_direct_calls", 0)),
                                  ctrsbox_sfista=int(st.get("sfista_direct_calls", 0)), ctrsbox_geometry=int(st.get("cgeom_direct_calls", 0))),
                solver_runs_in_situ=int(st.get("runs", 0)), have_icontract=contracts.HAVE_ICONTRACT)
